@@ -226,6 +226,107 @@ def per_character(ctx):
             ctx.nontriv(("redirect", url, iface))
 
 
+T_NAMES = {"X-A": "x-a", "x-a": "x-a", "X-b": "x-b", "x-b": "x-b", "X-C": "x-c", "Content-Type": "content-type", "x{LF}b": "x{LF}b",
+           "n{NUL}": "n{NUL}", "X{CR}": "x{CR}"}
+T_VALUES = ["v1", "v2", "", "caf{E9}", "a;b=c", "v{CR}3", "v{LF}4", "v{NUL}5", "{LF}"]
+
+
+def long_sequences(ctx):
+    """code -> spec: long random operation sequences on one MutableHeaders, every call logged at its return with the full store,
+    validated by TLC against HeaderMap.tla's actions with its invariants on"""
+    import random
+    from .. import tracecheck
+    from baize.datastructures import MutableHeaders
+    wd = tlc.workdir_for("c13trace")
+    back = {real(t): t for t in list(T_NAMES) + list(T_NAMES.values()) + T_VALUES}
+    rnd = random.Random(77 + ctx.seed)
+    n_tr, n_ops = (150, 60) if ctx.tier == "quick" else (1500, 200)
+    bad = {t for t in list(T_NAMES) + T_VALUES if any(x in t for x in ("{CR}", "{LF}", "{NUL}"))}
+
+    def project(h):
+        return [[back.get(k, k), [back.get(x, x) for x in v.split(", ")]] for k, v in h.items()]
+
+    traces, finals = [], []
+    for _ in range(n_tr):
+        h = MutableHeaders()
+        events = []
+        for _ in range(n_ops):
+            op = rnd.choice(["SetItem", "SetItem", "AppendOp", "AppendOp", "SetDefault", "Update", "DelItem"])
+            pb = 0.15
+            pick_n = lambda: rnd.choice([n for n in T_NAMES if (n in bad) == (rnd.random() < pb)] or list(T_NAMES))  # noqa
+            pick_v = lambda: rnd.choice([v for v in T_VALUES if (v in bad) == (rnd.random() < pb)] or T_VALUES)  # noqa
+            k, v, k2, v2 = pick_n(), pick_v(), pick_n(), pick_v()
+            if op == "Update" and k2 == k:
+                continue
+            try:
+                if op == "SetItem":
+                    h[real(k)] = real(v)
+                elif op == "AppendOp":
+                    h.append(real(k), real(v))
+                elif op == "SetDefault":
+                    h.setdefault(real(k), real(v))
+                elif op == "Update":
+                    h.update({real(k): real(v), real(k2): real(v2)})
+                else:
+                    del h[real(k)]
+                ret = "ok"
+            except (ValueError, KeyError) as e:
+                ret = type(e).__name__
+            events.append({"op": op, "k": k, "v": v, "k2": k2, "v2": v2, "ret": ret, "store": project(h)})
+            ctx.count()
+            if k in bad or v in bad or (op == "Update" and (k2 in bad or v2 in bad)):
+                ctx.nontriv(("seq", len(traces), len(events)))
+        traces.append({"init": [], "events": events})
+        finals.append(dict(h))
+    K = dict(Names=frozenset(T_NAMES), Values=frozenset(T_VALUES), BadTokens=frozenset(bad), LowerOf=frozenset(T_NAMES.items()),
+             MaxOps=10 ** 6, Initial=frozenset({()}), UpdFirst=frozenset())
+    acc, rejected = tracecheck.validate(wd, "TraceHeaderMap", traces, constants=K, invariants=["TClean", "LowerKeys"])
+    ctx.traces_validated += acc
+    for tid, name, st in tracecheck.validate.last_invariant_failures:
+        ctx.violation({"ops": [[e["op"], e["k"], e["v"]] for e in traces[tid]["events"][:(st or {}).get("l", 1) - 1]][-6:], "source": "long recorded sequence"},
+                      "invariant " + name, (st or {}).get("store"), "recorded operation sequence reaches a store violating %s of HeaderMap.tla" % name)
+    for tid, prefix in rejected:
+        t = traces[tid]
+        if prefix >= len(t["events"]):
+            continue
+        e = t["events"][prefix]
+        before = t["events"][prefix - 1]["store"] if prefix else []
+        case = {"store_before": before, "op": e["op"], "args": [e["k"], e["v"]] + ([e["k2"], e["v2"]] if e["op"] == "Update" else []),
+                "after_operations": prefix, "source": "long recorded sequence"}
+        given = [e["k"], e["v"]] + ([e["k2"], e["v2"]] if e["op"] == "Update" else [])
+        if e["op"] == "DelItem":
+            given = []
+        dirty = [p for p in e["store"] if p[0] in bad or any(x in bad for x in p[1])]
+        if dirty:
+            ctx.violation(case, "rejected", {"stored": dirty, "ret": e["ret"]}, "a control character was stored through %s (after %d operations)" % (e["op"], prefix))
+        elif any(x in bad for x in given) and e["ret"] == "ok" and e["op"] != "SetDefault":
+            ctx.violation(case, "ValueError at the point of mutation", {"ret": e["ret"], "store": e["store"]},
+                          "%s accepted a name/value with a control character silently (after %d operations)" % (e["op"], prefix))
+        else:
+            ctx.drift_at(case, "a behaviour of HeaderMap.tla", e, "recorded operation sequence is not a behaviour of HeaderMap.tla at event %d" % (prefix + 1))
+    # the final store of every sequence goes out through real responses
+    for fin in finals[:60]:
+        lines = emit_lines(lambda r: r.headers.update(fin))
+        for iface, ls in lines.items():
+            if isinstance(ls, str) or any(has_ctl(k) or has_ctl(v) for k, v in ls):
+                ctx.violation({"store": fin, "iface": iface, "source": "long recorded sequence"}, "clean header lines", ls, "emitted header line contains CR/LF/NUL")
+    # binding self-test: a falsified store must be rejected
+    import copy
+    fal = []
+    for t in traces[:10]:
+        t2 = copy.deepcopy(t)
+        i = len(t2["events"]) // 2
+        t2["events"][i]["store"] = t2["events"][i]["store"] + [["x-zz", ["v1"]]]
+        t2["events"] = t2["events"][:i + 1]
+        fal.append(t2)
+    K2 = dict(K, Names=frozenset(list(T_NAMES) + ["x-zz"]), LowerOf=frozenset(list(T_NAMES.items()) + [("x-zz", "x-zz")]))
+    acc2, _ = tracecheck.validate(wd, "TraceHeaderMap", fal, constants=K2)
+    if acc2:
+        raise common.MachineryError("binding self-test: %d falsified header-map traces accepted" % acc2)
+    ctx.notes.append("TraceHeaderMap: %d sequences of %d operations validated; %d falsified ones rejected" % (len(traces), n_ops, len(fal)))
+    ctx.sample({"long_sequence_events": traces[0]["events"][:3]})
+
+
 def run(ctx):
     K = dict(Names=frozenset(NAMES), Values=frozenset(VALUES), BadTokens=frozenset(BAD), LowerOf=frozenset(NAMES.items()),
              MaxOps=2 if ctx.tier == "quick" else 3, Initial=frozenset({(), (("x-a", ("v1",)),)}),
@@ -257,6 +358,7 @@ def run(ctx):
     ctx.n_emit = 0
     n = replay_headermap(ctx, g)
     ctx.bounds["edges_replayed"] = n
+    long_sequences(ctx)
     per_character(ctx)
     ctx.sample({"header_op": "append('X-A', 'v\\r3') on {'x-a': 'v1'} -> ValueError, store unchanged"})
     ctx.sample({"cookie_value": "a; Domain=evil.com", "emitted": 'sid="a\\073 Domain=evil.com"; path=/; samesite=lax'})
